@@ -38,23 +38,23 @@ func init() {
 // abstract terms of the generator
 // ---------------------------------------------------------------------------------------------
 
-type gt struct {
+type ot8 struct {
 	k    byte // 'V' 'A' 'I' 'F' 'S' 'C'
 	n    int64
 	bits uint64
 	s    string
-	args []*gt
+	args []*ot8
 }
 
-func gV(n int) *gt               { return &gt{k: 'V', n: int64(n)} }
-func gA(s string) *gt            { return &gt{k: 'A', s: s} }
-func gI(n int64) *gt             { return &gt{k: 'I', n: n} }
-func gF(f float64) *gt           { return &gt{k: 'F', bits: math.Float64bits(f)} }
-func gFb(b uint64) *gt           { return &gt{k: 'F', bits: b} }
-func gS(n int) *gt               { return &gt{k: 'S', n: int64(n)} }
-func gC(f string, as ...*gt) *gt { return &gt{k: 'C', s: f, args: as} }
-func gCons(h, t *gt) *gt         { return gC(".", h, t) }
-func gList(es []*gt, tail *gt) *gt {
+func gV(n int) *ot8               { return &ot8{k: 'V', n: int64(n)} }
+func gA(s string) *ot8            { return &ot8{k: 'A', s: s} }
+func gI(n int64) *ot8             { return &ot8{k: 'I', n: n} }
+func gF(f float64) *ot8           { return &ot8{k: 'F', bits: math.Float64bits(f)} }
+func gFb(b uint64) *ot8           { return &ot8{k: 'F', bits: b} }
+func gS(n int) *ot8               { return &ot8{k: 'S', n: int64(n)} }
+func gC(f string, as ...*ot8) *ot8 { return &ot8{k: 'C', s: f, args: as} }
+func gCons(h, t *ot8) *ot8         { return gC(".", h, t) }
+func ot8List(es []*ot8, tail *ot8) *ot8 {
 	t := tail
 	if t == nil {
 		t = gA("[]")
@@ -65,11 +65,11 @@ func gList(es []*gt, tail *gt) *gt {
 	return t
 }
 
-func (t *gt) isCons() bool { return t.k == 'C' && t.s == "." && len(t.args) == 2 }
-func (t *gt) isNil() bool  { return t.k == 'A' && t.s == "[]" }
+func (t *ot8) isCons() bool { return t.k == 'C' && t.s == "." && len(t.args) == 2 }
+func (t *ot8) isNil() bool  { return t.k == 'A' && t.s == "[]" }
 
-func (t *gt) spine() ([]*gt, *gt) {
-	var es []*gt
+func (t *ot8) spine() ([]*ot8, *ot8) {
+	var es []*ot8
 	for t.isCons() {
 		es = append(es, t.args[0])
 		t = t.args[1]
@@ -77,7 +77,7 @@ func (t *gt) spine() ([]*gt, *gt) {
 	return es, t
 }
 
-func (t *gt) ground() bool {
+func (t *ot8) ground() bool {
 	if t.k == 'V' {
 		return false
 	}
@@ -89,7 +89,7 @@ func (t *gt) ground() bool {
 	return true
 }
 
-func (t *gt) hasKind(k byte) bool {
+func (t *ot8) hasKind(k byte) bool {
 	if t.k == k {
 		return true
 	}
@@ -103,7 +103,7 @@ func (t *gt) hasKind(k byte) bool {
 
 func isNaNBits(b uint64) bool { return b&0x7fffffffffffffff > 0x7ff0000000000000 }
 
-func (t *gt) hasNaN() bool {
+func (t *ot8) hasNaN() bool {
 	if t.k == 'F' && isNaNBits(t.bits) {
 		return true
 	}
@@ -115,7 +115,7 @@ func (t *gt) hasNaN() bool {
 	return false
 }
 
-func (t *gt) depth() int {
+func (t *ot8) depth() int {
 	d := 0
 	for _, a := range t.args {
 		if x := a.depth(); x > d {
@@ -125,7 +125,7 @@ func (t *gt) depth() int {
 	return d + 1
 }
 
-func (t *gt) rank() int {
+func (t *ot8) rank() int {
 	switch t.k {
 	case 'V':
 		return 0
@@ -141,7 +141,7 @@ func (t *gt) rank() int {
 	return 5
 }
 
-func (t *gt) wire(sb *strings.Builder) {
+func (t *ot8) wire(sb *strings.Builder) {
 	if sb.Len() > 0 {
 		sb.WriteByte(' ')
 	}
@@ -164,14 +164,14 @@ func (t *gt) wire(sb *strings.Builder) {
 	}
 }
 
-func (t *gt) String() string {
+func (t *ot8) String() string {
 	var sb strings.Builder
 	t.wire(&sb)
 	return sb.String()
 }
 
 // subst applies a variable aliasing (resolved: every key maps to its final representative)
-func (t *gt) subst(m map[int64]int64) *gt {
+func (t *ot8) subst(m map[int64]int64) *ot8 {
 	switch t.k {
 	case 'V':
 		if w, ok := m[t.n]; ok {
@@ -179,11 +179,11 @@ func (t *gt) subst(m map[int64]int64) *gt {
 		}
 		return t
 	case 'C':
-		as := make([]*gt, len(t.args))
+		as := make([]*ot8, len(t.args))
 		for i, a := range t.args {
 			as[i] = a.subst(m)
 		}
-		return &gt{k: 'C', s: t.s, args: as}
+		return &ot8{k: 'C', s: t.s, args: as}
 	}
 	return t
 }
@@ -193,7 +193,7 @@ func (t *gt) subst(m map[int64]int64) *gt {
 // ---------------------------------------------------------------------------------------------
 
 // text of a list of one-character atoms / of code points, if the list is one
-func charsText(es []*gt) (string, bool) {
+func charsText(es []*ot8) (string, bool) {
 	var sb strings.Builder
 	for _, e := range es {
 		if e.k != 'A' || utf8.RuneCountInString(e.s) != 1 || !utf8.ValidString(e.s) {
@@ -204,7 +204,7 @@ func charsText(es []*gt) (string, bool) {
 	return sb.String(), len(es) > 0
 }
 
-func codesText(es []*gt) (string, bool) {
+func codesText(es []*ot8) (string, bool) {
 	var sb strings.Builder
 	for _, e := range es {
 		if e.k != 'I' || e.n < 1 || e.n > 0x10ffff || (e.n >= 0xd800 && e.n <= 0xdfff) {
@@ -226,9 +226,9 @@ func quotableText(s string) bool {
 }
 
 // plainRecipe: compound cells only (used inside stored facts)
-func plainRecipe(t *gt) string { return t.String() }
+func plainRecipe(t *ot8) string { return t.String() }
 
-func recipe(r *rand.Rand, t *gt, fancy bool) string {
+func recipe(r *rand.Rand, t *ot8, fancy bool) string {
 	s := recipe0(r, t, fancy)
 	if fancy && t.k != 'V' && r.Intn(8) == 0 {
 		return "W " + s
@@ -236,7 +236,7 @@ func recipe(r *rand.Rand, t *gt, fancy bool) string {
 	return s
 }
 
-func recipes(r *rand.Rand, ts []*gt, fancy bool) string {
+func recipes(r *rand.Rand, ts []*ot8, fancy bool) string {
 	parts := make([]string, len(ts))
 	for i, t := range ts {
 		parts[i] = recipe(r, t, fancy)
@@ -244,7 +244,7 @@ func recipes(r *rand.Rand, ts []*gt, fancy bool) string {
 	return strings.Join(parts, " ")
 }
 
-func recipe0(r *rand.Rand, t *gt, fancy bool) string {
+func recipe0(r *rand.Rand, t *ot8, fancy bool) string {
 	if !fancy {
 		return t.String()
 	}
@@ -302,7 +302,7 @@ func recipe0(r *rand.Rand, t *gt, fancy bool) string {
 				continue
 			}
 			k := 1 + r.Intn(n-1)
-			return fmt.Sprintf("P%d %s %s", k, recipes(r, es[:k], fancy), recipe(r, gList(es[k:], nil), fancy))
+			return fmt.Sprintf("P%d %s %s", k, recipes(r, es[:k], fancy), recipe(r, ot8List(es[k:], nil), fancy))
 		case "app":
 			k := r.Intn(n + 1)
 			return fmt.Sprintf("Bapp%d:%d %s %s", k, n, recipes(r, es, fancy), recipe(r, tail, fancy))
@@ -785,7 +785,7 @@ var c08Floats = []float64{0, math.Copysign(0, -1), 1, -1, 2, 3, 1.5, 10, 97, 0.1
 	math.SmallestNonzeroFloat64, -math.SmallestNonzeroFloat64, 1 << 53, 9.223372036854775807e18}
 var c08Functors = []string{"f", "g", "foo", "-", ".", "é", "ab", "a", "[]", "{}"}
 
-func genLeaf(r *rand.Rand, nv int) *gt {
+func genLeaf(r *rand.Rand, nv int) *ot8 {
 	switch k := r.Intn(100); {
 	case k < 18:
 		return gV(r.Intn(nv))
@@ -800,9 +800,9 @@ func genLeaf(r *rand.Rand, nv int) *gt {
 	}
 }
 
-func genListElems(r *rand.Rand, nv, depth int) []*gt {
+func genListElems(r *rand.Rand, nv, depth int) []*ot8 {
 	n := r.Intn(5)
-	es := make([]*gt, n)
+	es := make([]*ot8, n)
 	switch r.Intn(5) {
 	case 0: // characters
 		for i := range es {
@@ -820,24 +820,24 @@ func genListElems(r *rand.Rand, nv, depth int) []*gt {
 	return es
 }
 
-func genTerm(r *rand.Rand, nv, depth int) *gt {
+func genTerm(r *rand.Rand, nv, depth int) *ot8 {
 	if depth <= 0 || r.Intn(3) == 0 {
 		return genLeaf(r, nv)
 	}
 	switch r.Intn(4) {
 	case 0, 1: // a list (proper, partial or improper)
 		es := genListElems(r, nv, depth)
-		var tail *gt
+		var tail *ot8
 		switch r.Intn(8) {
 		case 0:
 			tail = gV(r.Intn(nv))
 		case 1:
 			tail = genLeaf(r, nv)
 		}
-		return gList(es, tail)
+		return ot8List(es, tail)
 	default:
 		n := 1 + r.Intn(3)
-		as := make([]*gt, n)
+		as := make([]*ot8, n)
 		for i := range as {
 			as[i] = genTerm(r, nv, depth-1)
 		}
@@ -846,7 +846,7 @@ func genTerm(r *rand.Rand, nv, depth int) *gt {
 }
 
 // mutate returns a term close to t in the standard order: same shape, one place changed
-func mutate(r *rand.Rand, t *gt, nv int) *gt {
+func mutate(r *rand.Rand, t *ot8, nv int) *ot8 {
 	switch r.Intn(10) {
 	case 0:
 		return t // identical (possibly another representation)
@@ -860,41 +860,41 @@ func mutate(r *rand.Rand, t *gt, nv int) *gt {
 			es, tail := t.spine()
 			if tail.isNil() {
 				if s, ok := charsText(es); ok {
-					var cs []*gt
+					var cs []*ot8
 					for _, c := range s {
 						cs = append(cs, gI(int64(c)))
 					}
-					return gList(cs, nil)
+					return ot8List(cs, nil)
 				}
 				if s, ok := codesText(es); ok {
-					var cs []*gt
+					var cs []*ot8
 					for _, c := range s {
 						cs = append(cs, gA(string(c)))
 					}
-					return gList(cs, nil)
+					return ot8List(cs, nil)
 				}
 			}
 		}
 		switch r.Intn(6) {
 		case 0: // other functor, same args
-			return &gt{k: 'C', s: pick(r, c08Functors), args: t.args}
+			return &ot8{k: 'C', s: pick(r, c08Functors), args: t.args}
 		case 1: // drop or add an argument
 			if len(t.args) > 1 && r.Intn(2) == 0 {
-				return &gt{k: 'C', s: t.s, args: t.args[:len(t.args)-1]}
+				return &ot8{k: 'C', s: t.s, args: t.args[:len(t.args)-1]}
 			}
-			return &gt{k: 'C', s: t.s, args: append(append([]*gt{}, t.args...), genLeaf(r, nv))}
+			return &ot8{k: 'C', s: t.s, args: append(append([]*ot8{}, t.args...), genLeaf(r, nv))}
 		case 2: // swap two arguments
 			if len(t.args) >= 2 {
-				as := append([]*gt{}, t.args...)
+				as := append([]*ot8{}, t.args...)
 				i, j := r.Intn(len(as)), r.Intn(len(as))
 				as[i], as[j] = as[j], as[i]
-				return &gt{k: 'C', s: t.s, args: as}
+				return &ot8{k: 'C', s: t.s, args: as}
 			}
 		}
-		as := append([]*gt{}, t.args...)
+		as := append([]*ot8{}, t.args...)
 		i := r.Intn(len(as))
 		as[i] = mutate(r, as[i], nv)
-		return &gt{k: 'C', s: t.s, args: as}
+		return &ot8{k: 'C', s: t.s, args: as}
 	case 'A':
 		switch r.Intn(4) {
 		case 0:
@@ -1038,7 +1038,7 @@ func genC08Compare(r *rand.Rand, n int, tier string) []string {
 	for i := 0; i < n; i++ {
 		if r.Intn(25) == 0 {
 			// compare/3 with an arbitrary first argument
-			var o *gt
+			var o *ot8
 			switch r.Intn(8) {
 			case 0:
 				o = gV(0)
@@ -1069,7 +1069,7 @@ func genC08Compare(r *rand.Rand, n int, tier string) []string {
 		if r.Intn(3) == 0 {
 			z = mutate(r, x, nv)
 		}
-		ts := []*gt{x, y, z}
+		ts := []*ot8{x, y, z}
 		r.Shuffle(3, func(a, b int) { ts[a], ts[b] = ts[b], ts[a] })
 		if r.Intn(60) == 0 {
 			// a NaN injected directly (not constructible on a correct engine): model correspondence only
@@ -1158,9 +1158,9 @@ func runC08Compare(payload string) string {
 		// tags
 		d := newTermDecoder()
 		_ = d
-		abs := make([]*gt, 3)
+		abs := make([]*ot8, 3)
 		for k := 0; k < 3; k++ {
-			abs[k] = parseGT(f[5+k])
+			abs[k] = parseOT8(f[5+k])
 		}
 		sameRank := 0
 		ranks := []int{abs[0].rank(), abs[1].rank(), abs[2].rank()}
@@ -1241,17 +1241,17 @@ func runC08Compare(payload string) string {
 	panic("bad c08.compare payload kind " + f[0])
 }
 
-// parseGT parses a plain abstract wire term.
-func parseGT(s string) *gt {
+// parseOT8 parses a plain abstract wire term.
+func parseOT8(s string) *ot8 {
 	toks := strings.Fields(s)
 	t, rest := parseGT0(toks)
 	if len(rest) != 0 {
-		panic("parseGT: trailing tokens")
+		panic("parseOT8: trailing tokens")
 	}
 	return t
 }
 
-func parseGT0(toks []string) (*gt, []string) {
+func parseGT0(toks []string) (*ot8, []string) {
 	tok, rest := toks[0], toks[1:]
 	switch tok[0] {
 	case 'V':
@@ -1273,20 +1273,20 @@ func parseGT0(toks []string) (*gt, []string) {
 		i := strings.IndexByte(tok, ':')
 		n, _ := strconv.Atoi(tok[1:i])
 		f, _ := decName(tok[i+1:])
-		as := make([]*gt, n)
+		as := make([]*ot8, n)
 		for j := 0; j < n; j++ {
 			as[j], rest = parseGT0(rest)
 		}
 		return gC(f, as...), rest
 	}
-	panic("parseGT: bad token " + tok)
+	panic("parseOT8: bad token " + tok)
 }
 
 // ---------------------------------------------------------------------------------------------
 // c08.sort
 // ---------------------------------------------------------------------------------------------
 
-func genSortElems(r *rand.Rand, nv int, pairs bool) []*gt {
+func genSortElems(r *rand.Rand, nv int, pairs bool) []*ot8 {
 	var n int
 	switch r.Intn(10) {
 	case 0:
@@ -1298,13 +1298,13 @@ func genSortElems(r *rand.Rand, nv int, pairs bool) []*gt {
 	default:
 		n = 2 + r.Intn(11)
 	}
-	pool := make([]*gt, 1+r.Intn(6)) // a small pool makes duplicates and `=` keys frequent
+	pool := make([]*ot8, 1+r.Intn(6)) // a small pool makes duplicates and `=` keys frequent
 	for i := range pool {
 		pool[i] = genTerm(r, nv, 2)
 	}
-	es := make([]*gt, n)
+	es := make([]*ot8, n)
 	for i := range es {
-		var k *gt
+		var k *ot8
 		switch r.Intn(6) {
 		case 0:
 			k = genTerm(r, nv, 2)
@@ -1314,7 +1314,7 @@ func genSortElems(r *rand.Rand, nv int, pairs bool) []*gt {
 			k = pick(r, pool)
 		}
 		if pairs {
-			es[i] = gC("-", k, pick(r, []*gt{gI(int64(i)), gA(pick(r, c08Atoms)), gV(r.Intn(nv)), gI(int64(r.Intn(3)))}))
+			es[i] = gC("-", k, pick(r, []*ot8{gI(int64(i)), gA(pick(r, c08Atoms)), gV(r.Intn(nv)), gI(int64(r.Intn(3)))}))
 		} else {
 			es[i] = k
 		}
@@ -1341,28 +1341,28 @@ func genC08Sort(r *rand.Rand, n int, tier string) []string {
 				}
 			}
 		}
-		list := gList(es, nil)
+		list := ot8List(es, nil)
 		sorted := gV(nv - 1)
 		// malformed share
 		if kind != "setof" {
 			switch r.Intn(20) {
 			case 0: // partial list
-				list = gList(es, gV(r.Intn(nv-2)))
+				list = ot8List(es, gV(r.Intn(nv-2)))
 			case 1: // improper list / non-list
-				list = gList(es, pick(r, []*gt{gA("foo"), gI(1), gC("f", gA("a"))}))
+				list = ot8List(es, pick(r, []*ot8{gA("foo"), gI(1), gC("f", gA("a"))}))
 			case 2: // a bad element (keysort) — harmless for sort
 				if len(es) > 0 {
-					es2 := append([]*gt{}, es...)
-					es2[r.Intn(len(es2))] = pick(r, []*gt{gV(r.Intn(nv - 2)), gA("a"), gC("-", gA("a")), gC("+", gA("a"), gA("b")), gI(3)})
-					list = gList(es2, nil)
+					es2 := append([]*ot8{}, es...)
+					es2[r.Intn(len(es2))] = pick(r, []*ot8{gV(r.Intn(nv - 2)), gA("a"), gC("-", gA("a")), gC("+", gA("a"), gA("b")), gI(3)})
+					list = ot8List(es2, nil)
 				}
 			case 3: // Sorted is not a list
-				sorted = pick(r, []*gt{gA("foo"), gI(1), gC("f", gA("a")), gList([]*gt{gA("a")}, gA("foo"))})
+				sorted = pick(r, []*ot8{gA("foo"), gI(1), gC("f", gA("a")), ot8List([]*ot8{gA("a")}, gA("foo"))})
 			case 4, 5: // Sorted is a partial list of fresh variables
-				sorted = gList([]*gt{gV(nv - 2)}, gV(nv-1))
+				sorted = ot8List([]*ot8{gV(nv - 2)}, gV(nv-1))
 			case 6: // Sorted is a partial list with a non-pair (an error for keysort only)
 				if kind == "keysort" {
-					sorted = gList([]*gt{gA("a")}, gV(nv-1))
+					sorted = ot8List([]*ot8{gA("a")}, gV(nv-1))
 				}
 			}
 		}
@@ -1434,7 +1434,7 @@ func runC08Sort(payload string) string {
 		panic("bad c08.sort kind " + kind)
 	}
 	w, ok, err := c.first(goal, sorted, kind != "keysort")
-	abs := parseGT(f[4])
+	abs := parseOT8(f[4])
 	es, tail := abs.spine()
 	res := "ans"
 	var out string
